@@ -42,7 +42,13 @@ func usage() {
 // lineLoop feeds every stdin line to f and prints its answer, flushing per line.
 func lineLoop(f func(line string) string) int {
 	in := bufio.NewReaderSize(os.Stdin, 1<<20)
-	out := bufio.NewWriterSize(os.Stdout, 1<<16)
+	// The code under test prints debugging text to os.Stdout (e.g. the compiler's trigger
+	// statement case): keep the protocol stream for ourselves and send its prints to /dev/null.
+	protocol := os.Stdout
+	if devnull, err := os.OpenFile(os.DevNull, os.O_WRONLY, 0); err == nil {
+		os.Stdout = devnull
+	}
+	out := bufio.NewWriterSize(protocol, 1<<16)
 	defer out.Flush()
 	for {
 		line, err := in.ReadString('\n')
